@@ -52,7 +52,6 @@ func c11Run(ci interface{}, rec *Rec) {
 	sat := c.F.HasModel()
 	scen := "bf.Solve"
 	if hasNegUniq(c.F, false, 5) {
-		scen = "bf.Solve/negated-group>=5"
 		rec.Count("with_negated_big_group", 1)
 	}
 	SetLearnedLimit(0, false)
